@@ -115,7 +115,7 @@ class C08(Plugin):
                     raise O.Skip('Raise.exc with cause: deletion is coupled')
                 if isinstance(parent.a, ast.ExceptHandler) and field == 'type' and parent.a.name:
                     raise O.Skip('ExceptHandler.type with name: deletion is coupled')
-                psig = (parent.a.__class__, getattr(parent.a, 'op', None).__class__)
+                psig = parent.a  # identity: on a norm collapse the wrapper is kept but carries another AST node
                 n_before = len(getattr(parent.a, field)) if idx is not None else None
                 if isinstance(parent.a, ast.Set) and n_before == 1:
                     raise O.Skip('emptying a Set is normalised')
@@ -129,7 +129,7 @@ class C08(Plugin):
                 self.warm(op['between'])
                 if not isinstance(piece, fst.FST):
                     raise O.Skip('primitive piece')
-                if parent.a is None or (parent.a.__class__, getattr(parent.a, 'op', None).__class__) != psig:
+                if parent.a is None or parent.a is not psig:
                     run.stats['container_normalised_away'] += 1
                     raise StopRun()
                 try:
@@ -161,7 +161,7 @@ class C08(Plugin):
                 ns = norm_slice(n_before, op['start'], op['stop'])
                 if ns is None:
                     raise O.Skip('start>stop')
-                psig = (f.a.__class__, getattr(f.a, 'op', None).__class__)
+                psig = f.a  # identity, see rt_cut_node
                 if isinstance(f.a, ast.Set) and (ns[1] - ns[0] == n_before or ns[1] == ns[0]):
                     raise O.Skip('emptying a Set is normalised')
                 if isinstance(f.a, ast.Compare):
@@ -175,7 +175,7 @@ class C08(Plugin):
                 run.core_after_ok(False)
                 self.warm(op['between'])
                 f = O.resolve_f(root, op['path'])
-                if (f.a.__class__, getattr(f.a, 'op', None).__class__) != psig:
+                if f.a is not psig:
                     run.stats['container_normalised_away'] += 1
                     raise StopRun()
                 try:
